@@ -304,6 +304,63 @@ def exec_run_simulation_case(ctx, case):
     ctx.case_done(signature=("run_simulation", n_swb, json.dumps(loads)))
 
 
+def equal_size_simulation_case(ctx, rng, idx, case=None):
+    """the equal-size rule driven through feems.runsimulation.run_simulation on plants with several switchboards in a chain
+    (k - 1 breakers, all closed by the interface) - also series shorter than the number of breakers"""
+    if case is None:
+        k = int(rng.choice([1, 2, 3, 4, 5]))
+        per = [int(rng.integers(1, 3)) for _ in range(k)]
+        r = float(rng.choice([500.0, 1000.0, 1800.0]))
+        f = float(rng.choice([0.5, 0.8, 1.0]))
+        n = int(rng.choice([1, 2, 3, 6]))
+        total = r * sum(per)
+        loads = {s + 1: [float(np.round(rng.uniform(0.0, 0.9) * total / k, 1)) for _ in range(n)] for s in range(k)}
+        case = {"kind": "equal_size_simulation", "per_swb": per, "rated": r, "fraction": f, "n": n, "loads": {str(s): v for s, v in loads.items()}}
+    return exec_equal_size_simulation_case(ctx, case)
+
+
+def exec_equal_size_simulation_case(ctx, case):
+    from .. import plants
+    from feems.runsimulation import run_simulation, EqualEngineSizeAllClosedSimulationInterface
+    from feems.components_model.utility import IntegrationMethod
+    per, r, f, n = case["per_swb"], case["rated"], case["fraction"], case["n"]
+    k = len(per)
+    where = {"case": case}
+    spec = {"type": "electric", "name": "plant", "electric": [], "bus_ties": [[s, s + 1] for s in range(1, k)]}
+    for s in range(1, k + 1):
+        for g in range(per[s - 1]):
+            spec["electric"].append({"kind": "genset", "name": f"g{s}_{g}", "swb": s, "rated": r, "generator": {"rated": r, "speed": 1000.0, "curve": [0.95]},
+                                     "engine": {"rated": 1.1 * r, "speed": 1000.0, "bsfc": [200.0]}})
+        spec["electric"].append({"kind": "other_load", "name": f"l{s}", "swb": s, "rated": r * sum(per), "curve": [1.0]})
+    ctx.count("equal_size_simulation", f"{k} switchboards, {n} samples" if n < k - 1 else "series at least as long as the breaker list")
+    try:
+        plant = plants.Plant(spec)
+        for s in range(1, k + 1):
+            plant.by_name[f"l{s}"].set_power_input_from_output(np.array(case["loads"][str(s)], dtype=float))
+        for c in spec["electric"]:
+            if c["kind"] == "genset":           # this interface decides who runs; how the running sets share the load is the caller's
+                plant.by_name[c["name"]].load_sharing_mode = np.zeros(n)
+        plant.electric.set_time_interval(np.full(n, 60.0), integration_method=IntegrationMethod.sum_with_time)
+        run_simulation(plant.electric, EqualEngineSizeAllClosedSimulationInterface(swb2n_gensets={s: per[s - 1] for s in range(1, k + 1)}, rated_power_gensets=r,
+                                                                                   n_bus_ties=k - 1, maximum_allowable_genset_load_percentage=f))
+    except Exception as e:
+        ctx.fail("predicate", "equal-size-simulation-raises-" + core.error_class(e), f"{type(e).__name__}: {e}", where)
+        return
+    demand = sum(np.array(case["loads"][str(s)], dtype=float) for s in range(1, k + 1))
+    gens = [c for c in spec["electric"] if c["kind"] == "genset"]
+    for t in range(n):
+        running = [c for c in gens if np.broadcast_to(plant.by_name[c["name"]].status, (n,))[t]]
+        if not running:
+            ctx.fail("predicate", "no-source-running", f"step {t}: no source runs", where)
+            continue
+        avoidable = r * len(gens) * f > demand[t] * (1 + 1e-9)
+        for c in running:
+            frac_ = float(np.broadcast_to(np.asarray(plant.by_name[c["name"]].power_output, dtype=float), (n,))[t]) / r
+            if avoidable and frac_ > f * (1 + 1e-9):
+                ctx.fail("predicate", "source-above-allowed-fraction", f"step {t}: {c['name']} at {frac_:.4f} > {f} although the plant could carry {demand[t]} kW within it", where)
+    ctx.case_done(signature=("equal_size_simulation", k, n, json.dumps(case["loads"])))
+
+
 CORPUS = core.VERIF / "corpus" / "C15"
 
 
@@ -341,6 +398,8 @@ def run(ctx):
         run_frontend_case(ctx, ctx.rng, i)
     for i in range(ctx.n(40, 800)):
         run_simulation_case(ctx, ctx.rng, i)
+    for i in range(ctx.n(30, 600)):
+        equal_size_simulation_case(ctx, ctx.rng, i)
     ctx.extra["corpus_cases"] = ncorp
 
 
@@ -360,6 +419,8 @@ def replay(data):
         exec_frontend_case(ctx, case)
     elif case.get("kind") == "run_simulation":
         exec_run_simulation_case(ctx, case)
+    elif case.get("kind") == "equal_size_simulation":
+        exec_equal_size_simulation_case(ctx, case)
     else:
         (run_equal_size if case.get("equal_size") else run_case)(ctx, case)
     for f in ctx.failures:
